@@ -169,11 +169,28 @@ func runHistory(dir string, seed uint64, spec PropSpec, shipped string) (*Case, 
 				before[id] = true
 			}
 		}
+		var preBytes []byte
+		if op.Kind == "add" && e.f != nil && (spec.Prop == "C02" || spec.Prop == "C08" || spec.Prop == "") {
+			for _, o := range spec.Oracles {
+				if o == "C02" || o == "C08" {
+					preBytes = e.storeBytes()
+				}
+			}
+		}
 		obs := e.Apply(op)
 		c.Ops = append(c.Ops, op)
 		c.record(idx, op, obs)
 		i := idx
 		idx++
+		if preBytes != nil && e.f != nil && len(obs) > 0 {
+			for _, o := range spec.Oracles {
+				if (o == "C02" || o == "C08") && (spec.Prop == o || spec.Prop == "") {
+					if v := oracleAddSlot(e, preBytes, o, i, op, obs[0]); v != nil {
+						vs = append(vs, v)
+					}
+				}
+			}
+		}
 		for _, v := range e.pending {
 			v.Op = i
 			vs = append(vs, v)
